@@ -29,6 +29,7 @@ import (
 const tabDriver = `
 local cases = ...
 local T = table
+local S = string
 local rawget, rawequal, setmetatable, pcall, type, error = rawget, rawequal, setmetatable, pcall, type, error
 local function mk(c, no, ctl)
   local back = {}
@@ -53,6 +54,15 @@ local function cmpf(kind, ctl)
   if kind == "false" then return function() return false end end
   if kind == "nil" then return function() end end
   if kind == "mod3" then return function(a, b) return a % 3 < b % 3 end end
+  -- "returns true" in the manual means a true VALUE: anything but false and nil
+  if kind == "lt0" then return function(a, b) if a < b then return 0 end end end          -- 0 / nothing at all
+  if kind == "ltstr" then return function(a, b) return a < b and "" or nil end end        -- "" / nil
+  if kind == "lttab" then return function(a, b) return a < b and {} or false end end      -- a table / false
+  if kind == "ltand" then return function(a, b) return a < b and b end end                -- the second operand / false
+  if kind == "ltfind" then return function(a, b) return (S.find(a < b and "xy" or "x", "y", 1, true)) end end  -- a position / nil
+  if kind == "ltmulti" then return function(a, b) return a < b, not (a < b), 1 end end    -- only the first result counts
+  if kind == "ltfun" then return function(a, b) return a < b and print or nil end end     -- a function / nil
+  if kind == "ltnan" then return function(a, b) if a < b then return 0/0 end return nil end end  -- NaN is a true value
   if kind:sub(1, 4) == "rand" then
     local st = tonumber(kind:sub(5))
     return function() st = (st * 1103515245 + 12345) % 2147483648; return (st // 65536) % 2 == 0 end
